@@ -26,6 +26,8 @@ def main():
             rc0, o0 = sh("sh out/" + os.path.basename(mdir) + "/run.sh", cwd=work + "/repo", timeout=900)
             res["demo"] = dict(clean_rc=rc0)
         rc, out = sh(["git", "apply", os.path.join(mdir, "patch.diff")], cwd=work + "/repo")
+        if rc != 0:     # the tree moved on since the change was written (hook lines nearby): apply with context fuzz
+            rc, out = sh("patch -p1 -F3 --no-backup-if-mismatch < %s" % os.path.join(mdir, "patch.diff"), cwd=work + "/repo")
         if rc != 0:
             res["error"] = "patch does not apply: " + out[-500:]; return res
         rc, out = sh("go build ./... && go vet ./server/ >/dev/null 2>&1; go build ./...", cwd=work + "/repo")
